@@ -81,7 +81,20 @@ def gen_cases(chk):
     for v in sorted(set(sample) | set(range(-20, 21))):
         lit.append("btcc id=%d toks=%s" % (next(cid), th(str(v))))
         lit.append("tf id=%d name=%s args=%s" % (next(cid), th("hex"), th(str(v))))
-    return {"sn": sn, "sne": sne, "snv": snv, "literals": lit}
+    # the decoder as the interpreter calls it: minimal encoding is required exactly when MINIMALDATA is set (not MINIMALIF, not any other flag),
+    # 4-byte operands (5 for the lock-time opcodes)
+    import gen_scripts as G
+    interp = []
+    ops = ["OP_1ADD", "OP_NEGATE", "OP_ABS", "OP_NOT", "OP_0NOTEQUAL", "OP_PICK", "OP_CHECKLOCKTIMEVERIFY", "OP_CHECKSEQUENCEVERIFY"]
+    operands = [b"\x01\x00", b"\x05\x00\x00\x00", b"\x80", b"\x00", b"\x00\x80", b"\x7f", b"\xff\xff\xff\x7f", b"\x00\x00\x00\x80\x00", b"\x01\x00\x00\x00\x00", b"", b"\x81", b"\x00\x00\x00\x00\x00\x01"]
+    fsets = [0, G.FLAG("MINIMALDATA"), G.FLAG("MINIMALIF"), G.FLAG("MINIMALDATA") | G.FLAG("MINIMALIF"), G.STANDARD(), G.STANDARD() & ~G.FLAG("MINIMALDATA"), G.STANDARD() & ~G.FLAG("MINIMALIF")]
+    for op in ops:
+        for v in operands:
+            for fl in fsets:
+                f2 = fl | G.FLAG("CHECKLOCKTIMEVERIFY") | G.FLAG("CHECKSEQUENCEVERIFY")
+                interp.append(G.case(next(cid), bytes([G.OP(op)]), [b"\x07", v], f2, rng.choice((0, 1, 3)), "s,s"))
+                interp.append(G.case(next(cid), G.push(v) + bytes([G.OP(op)]), [b"\x07"], f2, 0, "s,s,s"))
+    return {"sn": sn, "sne": sne, "snv": snv, "literals": lit, "interpreter": interp}
 
 
 def main(tier):
